@@ -44,6 +44,8 @@ type Case struct {
 	CondDflt string      `json:"cond_dflt,omitempty"` // its answer for names not in Conds
 	Conds    []CondEntry `json:"conds,omitempty"`
 	NoMain   bool        `json:"no_main,omitempty"` // the helper is not a registered command (cmd/testscript)
+	NoRoot   bool        `json:"no_root,omitempty"`   // run without Params.WorkdirRoot (work directory under $TMPDIR) ...
+	TestWork bool        `json:"test_work,omitempty"` // ... with this Params.TestWork
 	Kind     string      `json:"kind"`              // constructive | wild | corpus | cli | c16
 	Note     string      `json:"note,omitempty"`
 }
@@ -72,6 +74,7 @@ type Obs struct {
 	FileAfter []byte
 	Log       string
 	PanicVal  string
+	WorkLeft  bool // the work directory still exists after the run
 }
 
 var (
@@ -189,6 +192,10 @@ func runImpl(c *Case, dir string) *Obs {
 			return false, errors.New("condition error")
 		}
 	}
+	if c.NoRoot {
+		p.WorkdirRoot = ""
+		p.TestWork = c.TestWork
+	}
 	t := &recT{}
 	func() {
 		defer func() {
@@ -216,10 +223,25 @@ func runImpl(c *Case, dir string) *Obs {
 		o.FailLines = append(o.FailLines, n)
 	}
 	if o.Work == "" {
-		o.Work = filepath.Join(dir, "root", "script-s")
+		// setup failed before Params.Setup was called: the log of a run that keeps its work
+		// directory starts with its name
+		if m := regexp.MustCompile(`(?m)^WORK=(/.*)$`).FindStringSubmatch(o.Log); m != nil {
+			o.Work = m[1]
+		} else {
+			o.Work = filepath.Join(dir, "root", "script-s")
+		}
 	}
 	o.Tree = snapshot(o.Work)
 	o.FileAfter, _ = os.ReadFile(script)
+	if _, err := os.Stat(o.Work); err == nil {
+		o.WorkLeft = true
+	}
+	if c.NoRoot && o.Work != "" {
+		// the engine made its own go-test-script* directory under $TMPDIR: ours to remove
+		if top := filepath.Dir(o.Work); strings.HasPrefix(filepath.Base(top), "go-test-script") && strings.HasPrefix(top, os.TempDir()) {
+			cleanup(top)
+		}
+	}
 	return o
 }
 
